@@ -138,10 +138,12 @@ def apply_sigma(t, pairs, apps, partner_of):
 def role_symmetry(year):
     obs = []
     cat = linevc.Cat.get(year)
-    for line in per_person_lines().get(str(year), []):
+    for entry in per_person_lines().get(str(year), []):
+        line = entry['line'] if isinstance(entry, dict) else entry
+        joint_only = isinstance(entry, dict) and entry.get('on_a_joint_return')
         fld = cat.fields.get(line)
         oid = f'C02/{year}/{line}/treats-both-spouses-alike'
-        clause = f'{line} is unchanged when everything it reads about the taxpayer and about the spouse is swapped'
+        clause = f'{line} is unchanged when everything it reads about the taxpayer and about the spouse is swapped' + (' (joint return)' if joint_only else '')
         if fld is None:
             obs.append(Ob(id=oid, status=oblig.ERROR, solver_output=f'contracts/per_person_lines.json names {line}, which {year} does not define'))
             continue
@@ -150,7 +152,7 @@ def role_symmetry(year):
         t0 = time.time()
         sm = summary.Summary(year, fld, max_paths=3000)
         if sm.unsupported or sm.value() is None:
-            rep = native_roles(year, line)
+            rep = native_roles(year, line, joint=bool(joint_only))
             obs.append(Ob(id=oid, status=oblig.REFUTED if rep.get('reproduced') else oblig.UNDECIDED, backend='native' if rep.get('reproduced') else 'none', function=fid,
                           clause='NOT: ' + clause, solver_output='line outside the subset: ' + str((sm.unsupported or ['no summary'])[0]), witness=rep, replay=rep))
             continue
@@ -190,6 +192,11 @@ def role_symmetry(year):
         unpaired = [n for n in summ if n not in partner_of]
         sig = lambda t: apply_sigma(t, uniq, apps, partner_of)
         hyp = facts + [sig(f) for f in facts]
+        if joint_only:
+            from . import c08
+            enum = c08.status_enum(year)
+            sort, econsts, none, cls = sym.enum_sort(enum)
+            hyp.append(linevc.read_symbol('i', '1040.filing_status', 'enum', enum) == econsts['MarriedFilingJointly'])
         goal = z3.And(R == sig(R), N == sig(N), z3.Implies(R, F == sig(F)))
         st, model, be, secs, txt = smt.prove(hyp, goal, 20000)
         if st == 'discharged' and not unpaired:
@@ -200,7 +207,7 @@ def role_symmetry(year):
         for p in sm.paths:
             for acc, shown, indexed in p.reads:
                 reads.add(f'{acc}|{shown.split(" ")[0]}')
-        rep = native_roles(year, line, reads=reads)
+        rep = native_roles(year, line, reads=reads, joint=bool(joint_only))
         refuted = st == 'refuted' or rep.get('reproduced')
         o = Ob(id=oid, status=oblig.REFUTED if refuted else oblig.UNDECIDED, backend='z3', function=fid, clause='NOT: ' + clause,
                solver_output=(str(txt)[:200] + (f' | sums without a counterpart for the other person: {unpaired}' if unpaired else '')),
@@ -211,7 +218,7 @@ def role_symmetry(year):
     return obs
 
 
-def native_roles(year, line, samples=300, reads=None):
+def native_roles(year, line, samples=300, reads=None, joint=False):
     """Concretisation: the real line on random environments that differ between the two people, and on their role-swapped images."""
     from habutax import enum as E
     cat = linevc.Cat.get(year)
@@ -262,6 +269,9 @@ def native_roles(year, line, samples=300, reads=None):
                     values[nm] = rnd.random() < 0.6
                 elif kind == 'enum' and ecls is E.taxpayer_or_spouse:
                     values[nm] = rnd.choice(list(ecls))
+        if joint:
+            from . import c08
+            inputs['1040.filing_status'] = c08.status_enum(year).MarriedFilingJointly
         sw_in = {(swap_name('i|' + k) or ('i|' + k))[2:]: v for k, v in inputs.items()}
         sw_va = {}
         for k, v in values.items():
